@@ -84,8 +84,14 @@ def gen_case(rng, force=None):
     rnames = []
     while len(rnames) < nrock:
         nm = rng.choice(['rock', 'dfalt', 'ROCK', 'cap', 'atmos', 'fault', 'POMED']) + '%d' % rng.randint(0, 9)
-        nm = nm[:5].ljust(5, 'x')
-        if nm not in rnames:
+        r = rng.random()
+        if r < 0.6:
+            nm = nm[:5].ljust(5, 'x')
+        elif r < 0.8:
+            nm = nm[:rng.randint(2, 4)].ljust(5)          # short name, trailing blanks (what a file with a short name gives)
+        else:
+            nm = nm[:rng.randint(2, 4)].rjust(5)          # short name, leading blanks
+        if nm not in rnames and nm.strip() not in [x.strip() for x in rnames]:
             rnames.append(nm)
     for nm in rnames:
         nad = rng.choice([None, 0, 1, 2])
@@ -281,11 +287,16 @@ def gen_case(rng, force=None):
     if names and has(0.4):
         for nm in rng.sample(names, rng.randint(1, len(names))):
             e = [None if has(0.3) else real(rng, '15.9e', True, True), [real(rng, '20.14e') for _ in range(rng.randint(1, 4))]]
+            if len(e[1]) >= 3 and has(0.25):
+                e[1][rng.randint(0, len(e[1]) - 2)] = None          # an absent value that is not the last one
             if has(0.3):
                 e += [rng.choice([1, 7]), rng.choice([1, 3])]
             inc[nm] = e
     c['incon'] = inc
     c['indom'] = dict((nm, [real(rng, '20.13e') for _ in range(rng.randint(1, 4))]) for nm in rng.sample(rnames, rng.randint(1, len(rnames)))) if has(0.3) else {}
+    for nm, vals in c['indom'].items():
+        if len(vals) >= 3 and has(0.25):
+            vals[rng.randint(0, len(vals) - 2)] = None
     c['end_keyword'] = rng.choice(['ENDCY', 'ENDCY', 'ENDFI'])
     xp = []
     echo = False
